@@ -90,7 +90,24 @@ impl fmt::Display for Components {
             .map(|v| format!("{}", v))
             .collect::<Vec<_>>()
             .join("\n");
-        write!(f, "{}\n{}", meta_lines, data_lines)
+        // Demandas del edificio
+        let mut needs_lines = String::new();
+        for (service, values) in [
+            (Service::ACS, &self.needs.ACS),
+            (Service::CAL, &self.needs.CAL),
+            (Service::REF, &self.needs.REF),
+        ] {
+            if let Some(values) = values {
+                needs_lines.push_str(&format!(
+                    "\n{}",
+                    crate::types::Needs {
+                        service,
+                        values: values.clone()
+                    }
+                ));
+            }
+        }
+        write!(f, "{}\n{}{}", meta_lines, data_lines, needs_lines)
     }
 }
 
